@@ -59,6 +59,8 @@ func wrapperEntries() []*cat.Strat {
 		out = append(out, one("decorator.Inverse("+tag+")", w, func() strategy.Strategy { return decorator.NewInverseStrategy(b.e.New(b.cfg)) }))
 		out = append(out, one("decorator.NoLoss("+tag+")", w, func() strategy.Strategy { return decorator.NewNoLossStrategy(b.e.New(b.cfg)) }))
 		out = append(out, one("decorator.StopLoss("+tag+")", w, func() strategy.Strategy { return decorator.NewStopLossStrategy(b.e.New(b.cfg), 0.25) }))
+		// a 100% stop loss never triggers and makes the decorator repeat Buy signals: reports must still normalise them
+		out = append(out, one("decorator.StopLoss100("+tag+")", w, func() strategy.Strategy { return decorator.NewStopLossStrategy(b.e.New(b.cfg), 1.0) }))
 	}
 	for i := range bases {
 		for _, step := range []int{1, 7} {
